@@ -9,10 +9,12 @@ import (
 	"context"
 	"encoding/json"
 	"fmt"
+	"io/fs"
 	"math/rand"
 	"os"
 	"runtime"
 	"strconv"
+	"strings"
 	"sync"
 	"sync/atomic"
 	"time"
@@ -20,11 +22,16 @@ import (
 	"github.com/tetratelabs/wazero"
 	"github.com/tetratelabs/wazero/api"
 	"github.com/tetratelabs/wazero/experimental"
+	experimentalsys "github.com/tetratelabs/wazero/experimental/sys"
+	"github.com/tetratelabs/wazero/experimental/sysfs"
 	"github.com/tetratelabs/wazero/internal/wasm"
 	"github.com/tetratelabs/wazero/verifharness/common"
 )
 
 var emptyWasm = []byte{0, 'a', 's', 'm', 1, 0, 0, 0}
+
+// memWasm has one memory of one page, so that instantiation allocates through the experimental allocator.
+var memWasm = []byte{0, 'a', 's', 'm', 1, 0, 0, 0, 5, 3, 1, 0, 1}
 
 // ------------------------------------------------------------------------------------ replay
 
@@ -40,6 +47,7 @@ type snap struct {
 	Owner  map[string]int `json:"owner"`
 	Closed []bool         `json:"closed"`
 	Fired  []int          `json:"fired"`
+	Res    []int          `json:"res"`
 	Rt     bool           `json:"rt"`
 }
 
@@ -49,6 +57,55 @@ type behaviour struct {
 }
 
 type counter struct{ n int }
+
+// resources of one instantiation: a counting memory allocator and a file system whose one file fails to close.
+type resources struct {
+	allocs, frees, fileCloses int
+	failClose                 bool
+}
+
+type countMem struct {
+	r   *resources
+	buf []byte
+}
+
+func (m *countMem) Reallocate(size uint64) []byte {
+	if uint64(cap(m.buf)) < size {
+		nb := make([]byte, size, size*2)
+		copy(nb, m.buf)
+		m.buf = nb
+	}
+	m.buf = m.buf[:size]
+	return m.buf
+}
+func (m *countMem) Free() { m.r.frees++ }
+
+func (r *resources) Allocate(cap, max uint64) experimental.LinearMemory {
+	r.allocs++
+	return &countMem{r: r, buf: make([]byte, 0, cap)}
+}
+
+type resFS struct {
+	experimentalsys.UnimplementedFS
+	r *resources
+}
+
+type resFile struct {
+	experimentalsys.UnimplementedFile
+	r *resources
+}
+
+func (f resFS) OpenFile(path string, flag experimentalsys.Oflag, perm fs.FileMode) (experimentalsys.File, experimentalsys.Errno) {
+	return &resFile{r: f.r}, 0
+}
+
+func (f *resFile) Close() experimentalsys.Errno {
+	f.r.fileCloses++
+	if f.r.failClose {
+		return experimentalsys.EIO
+	}
+	return 0
+}
 
 func (c *counter) CloseNotify(context.Context, uint32) { c.n++ }
 
@@ -84,13 +141,15 @@ func replayOne(id int, b *behaviour, engine string) common.Result {
 	}
 	rt := wazero.NewRuntimeWithConfig(ctx, cfg)
 	defer rt.Close(ctx)
-	compiled, err := rt.CompileModule(ctx, emptyWasm)
+	compiled, err := rt.CompileModule(ctx, memWasm)
 	if err != nil {
 		res.AddFail("infra", err.Error())
 		return res
 	}
 	mods := map[int]api.Module{}
 	fired := map[int]*counter{}
+	held := map[int]*resources{} // by model id, failed instantiations included
+	var rtCloseErr string
 	keyOps := ""
 	for k, h := range b.Hist {
 		got := ""
@@ -102,14 +161,27 @@ func replayOne(id int, b *behaviour, engine string) common.Result {
 				ictx = experimental.WithCloseNotifier(ctx, c)
 			}
 			var mod api.Module
+			// every other instantiation gets a file whose Close fails: closing must release the rest all the same
+			rs := &resources{failClose: k%2 == 0}
+			ictx = experimental.WithMemoryAllocator(ictx, rs)
+			mc := wazero.NewModuleConfig().WithName(h.Name).WithFSConfig(wazero.NewFSConfig().(sysfs.FSConfig).WithSysFSMount(resFS{r: rs}, "/"))
 			got = protect(func() string {
 				var err error
-				mod, err = rt.InstantiateModule(ictx, compiled, wazero.NewModuleConfig().WithName(h.Name))
+				mod, err = rt.InstantiateModule(ictx, compiled, mc)
 				return classify(err)
 			})
+			if h.M > 0 {
+				held[h.M] = rs
+			}
 			if got == "ok" && h.Res == "ok" {
 				mods[h.M] = mod
 				fired[h.M] = c
+				if mi, ok := mod.(*wasm.ModuleInstance); ok && mi.Sys != nil {
+					if _, errno := mi.Sys.FS().OpenFile(resFS{r: rs}, "f", 0, 0); errno != 0 {
+						res.AddFail("infra", "open on the counting file system: "+errno.Error())
+						return res
+					}
+				}
 			}
 			keyOps += fmt.Sprintf("inst(%s);", h.Name)
 		case "close":
@@ -121,7 +193,8 @@ func replayOne(id int, b *behaviour, engine string) common.Result {
 			}
 			wasClosed := mod.IsClosed()
 			got = protect(func() string {
-				if err := mod.Close(ctx); err != nil {
+				// the error of the failing file is reported by the Close that released the resources; it is still a close
+				if err := mod.Close(ctx); err != nil && !(held[h.M] != nil && held[h.M].failClose && !wasClosed && strings.Contains(err.Error(), "input/output error")) {
 					return "err:" + err.Error()
 				}
 				if wasClosed {
@@ -146,7 +219,12 @@ func replayOne(id int, b *behaviour, engine string) common.Result {
 			// the result of the CAS is not observable through the API: Close returns nil either way
 			got = protect(func() string {
 				if err := rt.Close(ctx); err != nil {
-					return "err:" + err.Error()
+					rtCloseErr = err.Error()
+					for _, line := range strings.Split(rtCloseErr, "\n") {
+						if !strings.Contains(line, "input/output error") {
+							return "err:" + err.Error()
+						}
+					}
 				}
 				return h.Res
 			})
@@ -199,6 +277,23 @@ func replayOne(id int, b *behaviour, engine string) common.Result {
 				res.Step = k + 1
 				res.AddFail(fmt.Sprintf("%s#notified", keyOps),
 					fmt.Sprintf("after step %d module %d close notifications=%d, the model says %d", k+1, id, fired[id].n, st.Fired[id-1]))
+			}
+		}
+		// resources: released exactly when the model says so, all of them, also when a file fails to close
+		for id, rs := range held {
+			if id-1 >= len(st.Res) {
+				continue
+			}
+			want := st.Res[id-1]
+			if rs.allocs > 0 && rs.frees != want*rs.allocs {
+				res.Step = k + 1
+				res.AddFail(fmt.Sprintf("%s#memory-freed;failing-file=%v", keyOps, rs.failClose),
+					fmt.Sprintf("after step %d module %d: linear memory freed %d times of %d allocations, the model says resources released %d times (a file of this instance fails to close: %v)", k+1, id, rs.frees, rs.allocs, want, rs.failClose))
+			}
+			if _, open := mods[id]; open && rs.fileCloses != want {
+				res.Step = k + 1
+				res.AddFail(fmt.Sprintf("%s#file-closed;failing-file=%v", keyOps, rs.failClose),
+					fmt.Sprintf("after step %d module %d: its open file was closed %d times, the model says resources released %d times", k+1, id, rs.fileCloses, want))
 			}
 		}
 		if !res.OK {
